@@ -1,8 +1,8 @@
 SPECIFICATION Spec
 CONSTANTS
   Kind = "lb"
-  Threads = {1, 2}
-  MaxCalls = 5
+  Threads = {1}
+  MaxCalls = 6
   Chunks = {0}
   Ns = {1, 2, 3}
   Sizes = {0, 1, 5}
